@@ -201,12 +201,17 @@ def one(m, alpha, ovr, form, idof, acc, fam, k, mode, oi, tvals):
     case = {"fam": fam, "k": k, "ast": m, "alpha": alpha, "ovr": oi if mode != "plain" else None, "form": form, "mode": mode}
     acc.n("traces")
     acc.n("transitions", 2)
+    keys_before, vals_before = list(interp), [repr(v) for v in interp.values()]
     try:
         res = obj.evaluate_propositions(interp)
         obj2, _ = bind(m)
         top = obj2.evaluate(interp)
     except BaseException as e:
         acc.violation(None, case, {"what": "evaluate raised", "exc": repr(e), "model": show(m)})
+        return
+    if list(interp) != keys_before or [repr(v) for v in interp.values()] != vals_before:
+        acc.violation(None, case, {"what": "evaluate changed the caller's interpretation dictionary", "model": show(m), "before": list(zip(keys_before, vals_before)),
+                                   "after": {str(k_): repr(v) for k_, v in interp.items()}})
         return
     acc.obs(sorted((str(k_), v.as_tuple()) for k_, v in res.items()), top.as_tuple())
     bad = []
